@@ -32,7 +32,7 @@ static int text_may_spawn(const unsigned char *d, size_t n)
 }
 
 static char tmpnames[32][320]; static int ntmpnames;
-static int bigdir;
+static int bigdir; static long g_outlen = 22;
 static void exec_c11(const plan_t *p)
 {
     uint32_t base_serial = 0;
@@ -239,7 +239,13 @@ static void gen_conf_file(plan_t *p, rng_t *r, const char *name, int allow_exec,
             else if (c < 90) add("%%version() %%appname()\n");
             else if (c < 92 || (bigdir && c < 97)) add("%s%%dirscan(/cfg/d)\n", rng_chance(r, 1, 3) ? "x " : "");
             else if (c < 94 && allow_exec) {
-                if (rng_chance(r, 1, 5)) { static const int bl[] = { 1, 100, 4096, 20470, 20478, 20479, 20480, 20481, 30000 }; add("v %%exec(big %d) w\n", bl[rng_below(r, 9)]); }
+                if (rng_chance(r, 1, 6)) {
+                    /* a command just as long as its buffer allows: "command >tempfile" of CONFIG_BUFF bytes, give or take a few */
+                    long want = 20480 - 2 - g_outlen + rng_range(r, -4, 3);
+                    add("v `echo ");
+                    for (long z = 5; z < want; z++) add("p");
+                    add("` w\n");
+                } else if (rng_chance(r, 1, 5)) { static const int bl[] = { 1, 100, 4096, 20470, 20478, 20479, 20480, 20481, 30000 }; add("v %%exec(big %d) w\n", bl[rng_below(r, 9)]); }
                 else add(rng_chance(r, 1, 2) ? "%%exec(echo hello   world)\n" : "x `echo back quoted` y\n");
             }
             else if (c < 94) { int n = rng_range(r, 120, 140); add(rng_chance(r, 1, 2) ? "n ${" : "n $"); for (int i = 0; i < n; i++) add("N"); add("} x\n"); }
@@ -270,6 +276,7 @@ static void gen_c11(plan_t *p, rng_t *r)
     plan_knob(p, "tmpdir", rng_chance(r, 1, 3) ? (rng_chance(r, 1, 3) ? rng_range(r, 2, 3) : 1) : 0);
     if (plan_get(p, "tmpdir", 0) >= 2) { static const int tl[] = { 200, 225, 230, 235, 238, 239, 240, 241, 242, 243, 244, 245, 249, 250, 255, 256, 300 }; plan_knob(p, "tmpdir.len", tl[rng_below(r, 17)]); }
     if (rng_chance(r, 1, 10)) { static const int el[] = { 120, 127, 128, 300, 4096, 20470, 20478, 20479, 20480, 20481, 30000, 65000 }; plan_knob(p, rng_chance(r, 1, 2) ? "env.v1len" : "env.homelen", el[rng_below(r, 12)]); }
+    g_outlen = (plan_get(p, "tmpdir", 0) >= 2 ? plan_get(p, "tmpdir.len", 240) : 4) + 1 + 17;                  /* "<dir>/Eterm-exec-XXXXXX" */
     plan_knob(p, "budget", 3000000);       /* a self-including file legitimately recurses 255 levels deep */
     if (rng_chance(r, 1, 10)) {
         /* a directory whose listing is as long as the line buffer, give or take a few bytes */
